@@ -9,6 +9,7 @@ import (
 
 	"verifharness/drv"
 	"verifharness/mon/legacyunsafex"
+	"verifharness/san"
 )
 
 func init() { drv.Register("C20", monC20) }
@@ -51,17 +52,42 @@ func c20GrowStack(n int, pad [256]byte) byte {
 // The conversion is called directly (not through a func value) so that escape analysis sees it.
 //
 //go:noinline
-func c20StackString(legacy bool, seed byte) (got, want string) {
+func c20ConvLegacy(seed byte) (want string) {
+	var arr [24]byte
+	for i := range arr {
+		arr[i] = seed + byte(i)*3
+	}
+	s := string(arr[:20])
+	want = string(append([]byte(nil), s...))
+	c20Sink = legacyunsafex.StringToBinary(s)
+	return want
+}
+
+//go:noinline
+func c20ConvNew(seed byte) (want string) {
 	var arr [24]byte
 	for i := range arr {
 		arr[i] = seed + byte(i)*3
 	}
 	s := string(arr[:20]) // short and, as far as this function is concerned, non-escaping
 	want = string(append([]byte(nil), s...))
+	c20Sink = unsafex.StringToBinary(s)
+	return want
+}
+
+//go:noinline
+func c20StackString(legacy bool, seed byte) (got, want string) {
+	// (one function per variant, so that neither variant's code decides where the other's string lives)
 	if legacy {
-		c20Sink = legacyunsafex.StringToBinary(s)
+		want = c20ConvLegacy(seed)
 	} else {
-		c20Sink = unsafex.StringToBinary(s)
+		want = c20ConvNew(seed)
+	}
+	if c20Scribble(int(seed)%6) == 0 {
+		return "", want
+	}
+	if got = string(c20Sink); got != want {
+		return got, want
 	}
 	var pad [256]byte
 	c20GrowStack(3000, pad) // grows (moves) the stack and overwrites the old frames
@@ -88,6 +114,91 @@ func c20MakeSole(cv conv, dir int64, l int, seed byte, keepS *string, keepB *[]b
 	return want
 }
 
+var c20SinkS string
+
+// c20StackArray converts a slice of a local array (which stays on the goroutine stack unless the conversion
+// makes it escape), keeps only the resulting string in a global, then leaves the frame, grows the stack
+// and overwrites the old frames before the string is looked at again.
+//
+//go:noinline
+func c20StackArray(legacy bool, seed byte) (want string) {
+	// one function per variant: whether the array escapes is decided per function, and must not be
+	// decided by the other variant's code
+	if legacy {
+		return c20StackArrayLegacy(seed)
+	}
+	return c20StackArrayNew(seed)
+}
+
+//go:noinline
+func c20StackArrayNew(seed byte) (want string) {
+	var arr [40]byte
+	for i := range arr {
+		arr[i] = seed + byte(i)*5
+	}
+	want = string(append([]byte(nil), arr[:32]...))
+	if seed&4 != 0 {
+		src := make([]byte, 32) // a constant-size make that does not escape is a stack object as well
+		copy(src, arr[:32])
+		c20SinkS = unsafex.BinaryToString(src)
+		return want
+	}
+	c20SinkS = unsafex.BinaryToString(arr[:32])
+	return want
+}
+
+//go:noinline
+func c20StackArrayLegacy(seed byte) (want string) {
+	var arr [40]byte
+	for i := range arr {
+		arr[i] = seed + byte(i)*5
+	}
+	want = string(append([]byte(nil), arr[:32]...))
+	if seed&4 != 0 {
+		src := make([]byte, 32)
+		copy(src, arr[:32])
+		c20SinkS = legacyunsafex.BinaryToString(src)
+		return want
+	}
+	c20SinkS = legacyunsafex.BinaryToString(arr[:32])
+	return want
+}
+
+// c20Scribble is unrelated work of the same goroutine that only writes its own locals (a few frames deep:
+// it reuses the stack area of frames that have just been left, without growing the stack).
+//
+//go:noinline
+func c20Scribble(depth int) int {
+	var scratch [192]byte
+	for i := range scratch {
+		scratch[i] = byte(0xE0 | depth&0xf)
+	}
+	n := 0
+	if depth > 0 {
+		n = c20Scribble(depth - 1)
+	}
+	for _, c := range scratch {
+		n += int(c)
+	}
+	return n
+}
+
+//go:noinline
+func c20StackArrayOuter(legacy bool, seed byte) (got, want string) {
+	want = c20StackArray(legacy, seed)
+	if c20Scribble(int(seed)%6) == 0 { // the frame of c20StackArray is dead: reuse its stack area
+		return "", want
+	}
+	got = string(append([]byte(nil), c20SinkS...))
+	if got != want {
+		return got, want
+	}
+	var pad [256]byte
+	c20GrowStack(3000, pad) // and move the stack
+	runtime.GC()
+	return string(append([]byte(nil), c20SinkS...)), want
+}
+
 func monC20(c *drv.Ctx) {
 	c.Stage("stack-strings", 64, true, func(cs *drv.Case) {
 		legacy := cs.Idx%2 == 1
@@ -103,6 +214,23 @@ func monC20(c *drv.Ctx) {
 		}
 		cs.Count(true, "stack", cs.Idx)
 		cs.C.Obs("stack-string cases", 1)
+	})
+
+	c.Stage("stack-arrays", 64, true, func(cs *drv.Case) {
+		legacy := cs.Idx%2 == 1
+		done := make(chan [2]string, 1)
+		go func() {
+			g, w := c20StackArrayOuter(legacy, byte(cs.Idx))
+			done <- [2]string{g, w}
+		}()
+		r := <-done
+		c20SinkS = ""
+		cs.Desc = M{"variant": convs[cs.Idx%2].name, "array_len": 32}
+		if r[0] != r[1] {
+			cs.Fail("binary-to-string-stale", M{"variant": convs[cs.Idx%2].name}, M{"got": fmt.Sprintf("%q", r[0]), "want": fmt.Sprintf("%q", r[1]), "message": "the string obtained from a slice of a local array went stale after its frame was left and the stack was reused: the result does not keep its argument's memory alive"})
+		}
+		cs.Count(true, "stackarr", cs.Idx)
+		cs.C.Obs("stack-array cases", 1)
 	})
 
 	// the result of a conversion is the ONLY reference that is kept: the collector must see it as one (a result
@@ -226,10 +354,12 @@ func monC20(c *drv.Ctx) {
 	})
 	// strings and slices beyond 1 GiB (untouched zero pages: the memory is reserved, not used)
 	if !c.Slow() && c.Flavour != "asan" {
-		c.Stage("over-1GiB", int64(len(convs)), true, func(cs *drv.Case) {
-			cv := convs[cs.Idx]
-			n := 1<<30 + 4096
-			big := make([]byte, n)
+		bigSizes := []int{1<<30 + 4096, 1<<31 + 4096, 1<<32 + 4096}
+		c.Stage("over-1GiB", int64(len(convs)*len(bigSizes)), true, func(cs *drv.Case) {
+			cv := convs[cs.Idx%int64(len(convs))]
+			n := bigSizes[cs.Idx/int64(len(convs))]
+			big, free := san.Virtual(n)
+			defer free()
 			big[0], big[n-1], big[1<<30] = 'a', 'z', 'm'
 			cs.Desc = M{"variant": cv.name, "len": n}
 			s := cv.b2s(big)
@@ -237,7 +367,7 @@ func monC20(c *drv.Ctx) {
 				cs.Fail("binary-to-string-content", M{"variant": cv.name, "size": ">1GiB"}, M{"len": len(s)})
 				return
 			}
-			for _, sub := range []string{s, s[1:], s[:1<<30+1], s[4095:]} {
+			for _, sub := range []string{s, s[1:], s[:1<<30+1], s[4095:], s[:n-4095]} {
 				out := cv.s2b(sub)
 				if len(out) != len(sub) || cap(out) != len(sub) || unsafe.SliceData(out) != unsafe.StringData(sub) || out[len(out)-1] != sub[len(sub)-1] {
 					cs.Fail("string-to-binary-content", M{"variant": cv.name, "size": ">1GiB"}, M{"len": len(out), "cap": cap(out), "want": len(sub)})
